@@ -80,7 +80,12 @@ def run(ctx: Ctx) -> None:
         n = node_containing(cfg, st)
         if vals and isinstance(vals[0], ast.FormattedValue):
             first = vals[0].value
-            if is_self_attr(first, "filename"):
+            if isinstance(first, ast.Attribute) and first.attr == "filename" and isinstance(first.value, ast.Attribute) and first.value.attr == "location":
+                # f"{tok.location.filename}:{tok.location.lineno}: ..." (the fields of the same location)
+                ok = len(vals) >= 3 and isinstance(vals[1], ast.Constant) and vals[1].value == ":" and isinstance(vals[2], ast.FormattedValue) and isinstance(vals[2].value, ast.Attribute) \
+                    and vals[2].value.attr == "lineno" and norm(vals[2].value.value) == norm(first.value)
+                why = "" if ok else "the message is not `<file of tok.location>:<line of tok.location>:`"
+            elif is_self_attr(first, "filename"):
                 ok = len(vals) > 1 and isinstance(vals[1], ast.Constant) and str(vals[1].value).startswith(":")
                 why = "" if ok else "file name is not followed by ':'"
             elif isinstance(first, ast.Name) and n is not None:
